@@ -1,6 +1,10 @@
 #!/usr/bin/env python3
-"""Apply every seeded change to /repo in turn, run the checks of the property it breaks, undo it, and record who caught what.
-usage: tools/mutants.py [reverts|seeded|all] [tier]      writes seeded/RESULTS.json and seeded/RESULTS.md"""
+"""Apply every seeded change in turn, run the checks of the property it breaks, undo it, and record who caught what.
+usage: tools/mutants.py [reverts|seeded|all] [tier] [--in-repo]     writes seeded/RESULTS.json and seeded/RESULTS.md
+
+By default the change is applied to a scratch worktree of /repo's HEAD (/tmp/nv-mutrepo, removed at the end) and the checks run
+with NV_REPO pointing there and NV_OUT=/tmp/nv-mutout, so that neither /repo nor /verif/evidence is disturbed; with --in-repo
+the change is applied to /repo itself (git -C /repo apply ...; git -C /repo checkout -- .), the way a reviewer would do it."""
 import glob
 import json
 import os
@@ -9,8 +13,17 @@ import sys
 import time
 
 ROOT = os.path.dirname(os.path.dirname(os.path.abspath(__file__)))
-which = sys.argv[1] if len(sys.argv) > 1 else "all"
-tier = sys.argv[2] if len(sys.argv) > 2 else "quick"
+args = [a for a in sys.argv[1:] if not a.startswith("--")]
+in_repo = "--in-repo" in sys.argv
+which = args[0] if len(args) > 0 else "all"
+tier = args[1] if len(args) > 1 else "quick"
+only = args[2].split(",") if len(args) > 2 else None
+TREE = "/repo" if in_repo else "/tmp/nv-mutrepo"
+env = dict(os.environ)
+if not in_repo:
+    subprocess.run(["git", "-C", "/repo", "worktree", "remove", "--force", TREE], capture_output=True)
+    subprocess.run(["git", "-C", "/repo", "worktree", "add", "--detach", TREE, "HEAD", "-q"], check=True)
+    env.update(NV_REPO=TREE, NV_OUT="/tmp/nv-mutout")
 items = []
 if which in ("reverts", "all"):
     for ln in open(os.path.join(ROOT, "known_findings.jsonl")):
@@ -26,9 +39,11 @@ if which in ("seeded", "all"):
                       "what": m.get("needs", "")})
 res_path = os.path.join(ROOT, "seeded", "RESULTS.json")
 results = json.load(open(res_path)) if os.path.exists(res_path) else {}
-assert subprocess.run(["git", "-C", "/repo", "status", "--porcelain", "--", "src"], capture_output=True, text=True).stdout.strip() == "", "/repo has local changes"
+assert subprocess.run(["git", "-C", TREE, "status", "--porcelain", "--", "src"], capture_output=True, text=True).stdout.strip() == "", TREE + " has local changes"
+if only:
+    items = [it for it in items if any(o in it["id"] for o in only)]
 for it in items:
-    ap = subprocess.run(["git", "-C", "/repo", "apply", it["patch"]], capture_output=True, text=True)
+    ap = subprocess.run(["git", "-C", TREE, "apply", it["patch"]], capture_output=True, text=True)
     if ap.returncode != 0:
         results[it["id"]] = {"error": "patch does not apply: " + ap.stderr[:200]}
         continue
@@ -36,13 +51,13 @@ for it in items:
         out = {}
         for p in it["props"]:
             t0 = time.time()
-            cp = subprocess.run([os.path.join(ROOT, "check"), p, "--tier", tier], cwd=ROOT, capture_output=True, text=True)
+            cp = subprocess.run([os.path.join(ROOT, "check"), p, "--tier", tier], cwd=ROOT, capture_output=True, text=True, env=env)
             lines = [l for l in cp.stdout.splitlines() if l.startswith("VIOLATION") or "violation(s) in total" in l or l.startswith("MACHINERY")]
             out[p] = {"exit": cp.returncode, "wall_s": round(time.time() - t0), "summary": (lines[-1] if lines else cp.stdout.splitlines()[-1] if cp.stdout else "")[:300]}
             print(it["id"], p, "exit", cp.returncode, out[p]["summary"][:160], flush=True)
         results[it["id"]] = {"what": it["what"][:200], "tier": tier, "checks": out, "caught": any(v["exit"] == 1 for v in out.values())}
     finally:
-        subprocess.run(["git", "-C", "/repo", "checkout", "--", "."], check=True)
+        subprocess.run(["git", "-C", TREE, "checkout", "--", "."], check=True)
     json.dump(results, open(res_path, "w"), indent=1)
 with open(os.path.join(ROOT, "seeded", "RESULTS.md"), "w") as fh:
     fh.write("| seeded change | breaks | checks run (exit) | caught |\n|---|---|---|---|\n")
@@ -51,4 +66,7 @@ with open(os.path.join(ROOT, "seeded", "RESULTS.md"), "w") as fh:
             fh.write("| %s | %s | %s | %s |\n" % (k, v["what"][:110].replace("|", "/"), ", ".join("%s (%d)" % (p, c["exit"]) for p, c in v["checks"].items()), "yes" if v["caught"] else "**NO**"))
         else:
             fh.write("| %s | %s | - | - |\n" % (k, v.get("error", "")))
+if not in_repo:
+    subprocess.run(["git", "-C", "/repo", "worktree", "remove", "--force", TREE], capture_output=True)
+    subprocess.run(["rm", "-rf", "/tmp/nv-mutout"])
 print("done")
